@@ -39,6 +39,9 @@ func Harness_C32_header_needs_c_plus_one_signers() {
 	config.DefConfig.Genesis.ConsensusType = "vbft"
 	n := param("npeers")
 	c := uint32(nondetRange("c", (n-1)/3+1)) // any fault bound with n >= 3c+1
+	if param("fixc") >= 0 {
+		assume(c == uint32(param("fixc")))
+	}
 	c32C = c
 	peers := make([]keypair.PublicKey, 0, n)
 	info := map[string]uint32{}
@@ -60,14 +63,19 @@ func Harness_C32_header_needs_c_plus_one_signers() {
 	hdr := &types.Header{Height: 5, Timestamp: 101, PrevBlockHash: c32Prev.Hash()}
 	nb := nondetRange("nbook", param("maxbook")+1)
 	for i := 0; i < nb; i++ {
-		ch := nondetRange("book", n+1)
-		if ch == n {
+		// listed keys are drawn from the first `bookpool` members (all members when 0) or the outsider
+		pool := param("bookpool")
+		if pool == 0 || pool > n {
+			pool = n
+		}
+		ch := nondetRange("book", pool+1)
+		if ch == pool {
 			hdr.Bookkeepers = append(hdr.Bookkeepers, outsider)
 		} else {
 			hdr.Bookkeepers = append(hdr.Bookkeepers, peers[ch])
 		}
 	}
-	ns := nondetRange("nsig", param("maxbook")+1)
+	ns := nondetRange("nsig", param("maxsig")+1)
 	for i := 0; i < ns; i++ {
 		hdr.SigData = append(hdr.SigData, nondetBytes("sig", 4))
 	}
@@ -93,7 +101,14 @@ func Harness_C32_header_needs_c_plus_one_signers() {
 		}
 		count += uint32(iteInt(has, 1, 0))
 	}
-	inKF := knownFinding("C32-fewer-signatures-than-c-plus-one", count < c+1)
+	// the listed finding: the code verifies m = n - 6n/7 signatures (not C+1); headers that carry at least
+	// those m valid distinct member signatures but fewer than C+1 are the known region, anything below m is new
+	mcode := uint32(n - (n*6)/7)
+	inKF := knownFinding("C32-fewer-signatures-than-c-plus-one", count >= mcode && count < c+1)
 	_ = inKF
 	assert(count >= c+1, "accepted-header-has-c-plus-one-distinct-valid-signers")
 }
+
+// Harness_C32_wide: the same claim with 8+ peers, where the code's own signature count m = n - 6n/7 is 2,
+// so a header with fewer valid signatures than even the code intends is distinguishable from the listed finding.
+func Harness_C32_wide() { Harness_C32_header_needs_c_plus_one_signers() }
